@@ -118,6 +118,26 @@ theorem C12_no_overflow (s : Bytes) (n : Int) (h : decodeTimeout s = some n) :
     omega
   · omega
 
+/-- Enforcement value: the deadline the bridge puts on the whole call is decided by the first
+    `grpc-timeout` value alone, read per the spec; a well-formed zero is an already-expired deadline,
+    never "no timeout". (That the deadline then stops the call is the Forward LTS's progress theorem, C02.) -/
+theorem C12_first_value_decides (vals : List Bytes) :
+    callDeadline vals = vals.head?.bind specTimeout := by
+  cases vals with
+  | nil => rfl
+  | cons v vs => simp [callDeadline, C12_decode]
+
+theorem C12_zero_is_a_deadline (ds : Bytes) (u : UInt8) (h1 : 1 ≤ ds.length) (h8 : ds.length ≤ 8)
+    (hz : ∀ b ∈ ds, b = 48) (hu : (specUnit u).isSome) (rest : List Bytes) :
+    callDeadline ((ds ++ [u]) :: rest) = some 0 := by
+  have hd : ∀ b ∈ ds, isDigit b = true := fun b hb => by rw [hz b hb]; decide
+  have hv : digitsValue ds = 0 := digitsValue_zeros ds hz
+  cases hsu : specUnit u with
+  | none => simp [hsu] at hu
+  | some d =>
+    have := (C12_decode_iff (ds ++ [u]) 0).2 ⟨ds, u, d, rfl, h1, h8, hd, hsu, by simp [hv]; decide⟩
+    simpa [callDeadline] using this
+
 /-- What fix D14 removed: before it, a signed value was mis-read instead of ignored. -/
 theorem C12_prefix_misread_signs :
     decodeTimeoutPreFix [43, 49, 83] = some 1000000000 ∧ decodeTimeoutPreFix [45, 49, 83] = some (-1000000000) ∧
@@ -128,3 +148,4 @@ theorem C12_prefix_misread_signs :
 example : decodeTimeout [49, 48, 83] = some 10000000000 := by decide          -- "10S"
 example : decodeTimeout [57, 57, 57, 57, 57, 57, 57, 57, 72] = some 9223372036854775807 := by decide  -- "99999999H"
 example : decodeTimeout [43, 49, 83] = none := by decide                      -- "+1S"
+example : callDeadline [[48, 83], [55, 83]] = some 0 := by decide               -- ["0S", "7S"]: first value, zero = expired
